@@ -52,6 +52,10 @@ Fixpoint mseq (a b : list (bytes * bytes)) : bool :=
 Definition bad_subject (s : bytes) : bool :=
   existsb ws s || existsb is_nil (tokens s).
 
+(* a token that contains a wildcard character without being a wildcard *)
+Definition mixed_tok (t : bytes) : bool :=
+  negb (beq t [star]) && negb (beq t [gt]) && existsb (fun c => (c =? star) || (c =? gt)) t.
+
 (* the calls the model expects on a connection that rejects bad subjects: subscribe() returns at
    the first error, so everything up to and including the first rejected subject *)
 Fixpoint until_bad (calls : list (bytes * bytes)) : list (bytes * bytes) * bool :=
@@ -89,7 +93,10 @@ Definition check_case (k : scase) : list N :=
       (if g_other =? 0 then [] else [5])
     end
   | NC sub subj srv_valid delivered =>
-    (if Bool.eqb (nats_valid_subject sub) srv_valid then [] else [6]) ++
+    (* the server accepts a wildcard character inside a longer token as a literal; the specification
+       deliberately does not ("'*' and '>' only as whole tokens") *)
+    (if (if existsb mixed_tok (tokens sub) then negb (nats_valid_subject sub)
+         else Bool.eqb (nats_valid_subject sub) srv_valid) then [] else [6]) ++
     (if negb srv_valid || (N.b2n (nats_match sub subj) =? delivered) then [] else [7])
   end.
 
@@ -101,20 +108,42 @@ Fixpoint names_upto (alpha : list bytes) (n : nat) : list (list bytes) :=
   | S n' => map (fun t => [t]) alpha ++
             flat_map (fun r => map (fun t => t :: r) alpha) (names_upto alpha n')
   end.
-Definition probe_names : list bytes := map join (names_upto [[97]; [98]; [99]] 4).
+Definition probe_names : list (list bytes) := names_upto [[97]; [98]; [99]] 4.
 Definition probe_method : bytes := [109].
 
-Definition counts_zero (recorded : list bytes) (s : bytes) : bool :=
-  Nat.eqb (match_count s recorded) 0.
+(* On token lists (subscriptions and owned patterns tokenised once; a probe name is its token list,
+   so that tokens (subj_plain t name) = t :: tokens name and tokens (subj_method t name m) =
+   t :: tokens name ++ [m]). *)
+Definition counts_zero (recorded : list (list bytes)) (s : list bytes) : bool :=
+  negb (existsb (fun sub => nmatch sub s) recorded).
 
 (* some owned pattern matches the name, but no recorded subscription matches the request subject *)
 Definition uncovered (recorded res acc : list bytes) : bool :=
+  let rt := map tokens recorded in
+  let rest := map tokens res in
+  let acct := map tokens acc in
   existsb (fun name =>
-    (existsb (fun p => nats_match p name) res &&
-       (counts_zero recorded (subj_plain t_get name) ||
-        counts_zero recorded (subj_method t_call name probe_method) ||
-        counts_zero recorded (subj_method t_auth name probe_method))) ||
-    (existsb (fun p => nats_match p name) acc && counts_zero recorded (subj_plain t_access name)))
+    (existsb (fun p => nmatch p name) rest &&
+       (counts_zero rt (t_get :: name) ||
+        counts_zero rt (t_call :: name ++ [probe_method]) ||
+        counts_zero rt (t_auth :: name ++ [probe_method]))) ||
+    (existsb (fun p => nmatch p name) acct && counts_zero rt (t_access :: name)))
+  probe_names.
+
+Definition count_toks (subs : list (list bytes)) (s : list bytes) : nat :=
+  length (filter (fun sub => nmatch sub s) subs).
+
+(* a probe request subject that is matched by exactly one entry of the pre-elimination pattern list
+   of the owned lists (so that it falls under a single owned pattern after the RES subject mapping;
+   call.a.b.m under the owned resources a.* and a.b.> falls under two and is NOT flagged) but by a
+   number of recorded subscriptions other than one *)
+Definition not_once (recorded res acc : list bytes) : bool :=
+  let rt := map tokens recorded in
+  let pre := map tokens (patterns_of res acc) in
+  let bad := fun s => Nat.eqb (count_toks pre s) 1 && negb (Nat.eqb (count_toks rt s) 1) in
+  existsb (fun name =>
+    bad (t_get :: name) || bad (t_call :: name ++ [probe_method]) ||
+    bad (t_auth :: name ++ [probe_method]) || bad (t_access :: name))
   probe_names.
 
 (* a recorded subscription is covered by another recorded one *)
@@ -142,7 +171,9 @@ Definition payload_exact (res acc : list bytes) (p : payload) : bool :=
 (* violation codes: 1 an owned request subject no recorded subscription matches
    2 a recorded subscription is covered by another one  3 a recorded subject is not a valid NATS subject
    4 a system.reset payload differs from the owned lists (or is missing / superfluous)
-   5 the queue group of a subscription is not the configured one *)
+   5 the queue group of a subscription is not the configured one
+   6 a request subject matched by exactly one entry of the pre-elimination pattern list is matched by
+     a number of recorded subscriptions other than one *)
 Definition viol_case (k : scase) : list N :=
   match k with
   | SC name res acc hr ha queue g_err g_subs g_resets g_extra g_other =>
@@ -159,7 +190,8 @@ Definition viol_case (k : scase) : list N :=
     (if serving
      then (if Nat.eqb (length g_resets) (S (N.to_nat g_extra)) && forallb (payload_exact ores oacc) g_resets then [] else [4])
      else (if is_nil g_resets then [] else [4])) ++
-    (if forallb (fun x => beq (snd (fst x)) queue) g_subs then [] else [5])
+    (if forallb (fun x => beq (snd (fst x)) queue) g_subs then [] else [5]) ++
+    (if serving && not_once recorded ores oacc then [6] else [])
   | NC _ _ _ _ => []
   end.
 
